@@ -10,6 +10,7 @@ import (
 	"net"
 	"os"
 	"path/filepath"
+	"sort"
 	"strings"
 	"time"
 
@@ -41,6 +42,9 @@ type rangeCase struct {
 	Clients  []rangeClient `json:"clients"`
 	EveryCP  bool          `json:"crash_point_after_every_reply"`
 	Restarts bool          `json:"restarts"`
+	// SlowRenew: after the history, one client re-requests twice with real pauses in
+	// between (the promise moves forward with the clock; the stored expiry must follow)
+	SlowRenew int `json:"slow_renew_ms,omitempty"`
 }
 
 type rangeEngine struct{}
@@ -118,6 +122,13 @@ func (rangeEngine) Gen(rng *rand.Rand, tier string, i int) any {
 		c.Reqs = 40 + rng.Intn(60)
 		if rng.Intn(3) == 0 {
 			c.Reqs = n + 8
+		}
+	}
+	if i%6 == 5 {
+		c.SlowRenew = 2200 + rng.Intn(600)
+		c.Lease = []string{"10m", "1h", "24h"}[rng.Intn(3)]
+		if c.Reqs > 20 {
+			c.Reqs = 20
 		}
 	}
 	seen := map[string]bool{}
@@ -307,6 +318,31 @@ func (rangeEngine) Run(ctx *fw.Ctx, cs any) {
 			}
 		}
 	}
+	if c.SlowRenew > 0 && used > 0 {
+		cl := c.Clients[r.rng.Intn(used)]
+		mac, _ := hex.DecodeString(cl.Mac)
+		key := clientKey(mac)
+		if _, bound := r.m.Bind[key]; bound {
+			for k := 0; k < 2; k++ {
+				time.Sleep(time.Duration(c.SlowRenew) * time.Millisecond)
+				tBefore := time.Now()
+				rep, _, _ := one4(r.s, r.request(cl, 3))
+				r.tr("REQUEST %s after a pause of %dms -> %s", key, c.SlowRenew, repStr(rep))
+				if rep == nil {
+					ctx.Viol("C02", "bound-client-not-served", "client %s holds an address but got no reply to a renewal", key)
+					break
+				}
+				if sig, msg := r.m.Judge(key, true, yi(rep)); sig != "" {
+					ctx.Viol("C02", sig, "%s", msg)
+				}
+				r.promise[key] = tBefore.Add(r.lease)
+				ctx.Count("range.slow_renewals", 1)
+				if !r.crashPoint(c.Reqs + k) {
+					return
+				}
+			}
+		}
+	}
 	if served2 && (exhausted || restarted) {
 		ctx.Nontrivial("C02", fmt.Sprintf("%s/%d/%s/%d", c.Start, c.N, c.Lease, c.Seed))
 	}
@@ -437,12 +473,26 @@ func (r *rangeRun) crashPoint(step int) bool {
 	}
 	s := newSrv4([]handler.Handler4{h}, loIface())
 	// probe known clients (all when few, a sample otherwise)
-	probed := 0
-	for key, ip := range r.m.Bind {
-		if probed >= 10 {
-			break
+	// probe every client with an unusual hardware-address length (up to 24) and up to 10 of the others
+	var order []string
+	usual := 0
+	for key := range r.m.Bind {
+		if !strings.HasPrefix(key, "6:") {
+			order = append(order, key)
 		}
-		probed++
+	}
+	sort.Strings(order)
+	if len(order) > 24 {
+		order = order[:24]
+	}
+	for key := range r.m.Bind {
+		if strings.HasPrefix(key, "6:") && usual < 10 {
+			order = append(order, key)
+			usual++
+		}
+	}
+	for _, key := range order {
+		ip := r.m.Bind[key]
 		var l int
 		var hx string
 		fmt.Sscanf(key, "%d:%s", &l, &hx)
